@@ -196,6 +196,16 @@ SyntaxVisitor::Action TypeCanonicalizer::visitIdentifierDeclarator(
     return visitDeclarator_COMMON(node);
 }
 
+SyntaxVisitor::Action TypeCanonicalizer::visitAbstractDeclarator(
+        const AbstractDeclaratorSyntax* node)
+{
+    // The declaration of a type name (in a cast, sizeof, typeof, ...) shares
+    // its type with whatever is declared from it.
+    if (!semaModel_->declarationBy(node))
+        return Action::Visit;
+    return visitDeclarator_COMMON(node);
+}
+
 const Type* TypeCanonicalizer::canonicalize(const Type* ty, const Scope* scope)
 {
     switch (ty->kind()) {
